@@ -33,6 +33,13 @@ pub enum Scenario {
     },
     /// C03 with arrival-ordered (transient) faults: relaxed oracle
     Transient { w: Workload, spec: SchedSpec },
+    /// C02 (history): `w` is checked right after another set was checked in the same execution
+    /// (same threads, same process state); its result must be the model's all the same
+    AfterOther {
+        first: Workload,
+        w: Workload,
+        spec: SchedSpec,
+    },
 }
 
 #[derive(Default, Clone, Debug)]
@@ -177,6 +184,25 @@ pub fn evaluate(sc: &Scenario) -> Eval {
                 (Ok(va), Ok(vb)) => compare_permuted(va, vb, perm)
                     .err()
                     .map(|m| finding("order-dependence", m)),
+            };
+        }
+        Scenario::AfterOther { first, w, spec } => {
+            let (_m, mo) = oracle::run_model(w);
+            if mo.unusable.is_some() {
+                ev.note("budget_skipped");
+                return ev;
+            }
+            let rr = oracle::run_real_after(&Arc::new(first.clone()), &Arc::new(w.clone()), spec);
+            ev.infos.push(rr.info.clone());
+            ev.finding = match &rr.verdict {
+                Err(f) if f.class == "budget" => None,
+                Err(f) => Some(f.clone()),
+                Ok(v) => model::matches(&mo.expect, v).err().map(|m| {
+                    finding(
+                        "history-dependence",
+                        format!("checked right after another set on the same threads: {m}"),
+                    )
+                }),
             };
         }
         Scenario::Transient { w, spec } => {
@@ -343,6 +369,7 @@ pub enum Batch {
     C01Model,
     C01Faulty,
     C02Determinism,
+    C02History,
     C03Overlay,
     C03Faulty,
     C03Transient,
@@ -356,6 +383,7 @@ impl Batch {
             Batch::C01Model => "c01-model",
             Batch::C01Faulty => "c01-model-f1",
             Batch::C02Determinism => "c02-determinism",
+            Batch::C02History => "c02-history",
             Batch::C03Overlay => "c03-overlay",
             Batch::C03Faulty => "c03-overlay-f1",
             Batch::C03Transient => "c03-transient-f2",
@@ -467,6 +495,22 @@ pub fn scenarios(batch: Batch, run_seed: u64) -> (Vec<Scenario>, u64) {
                 });
             }
         }
+        Batch::C02History => {
+            // two unrelated sets, the second one asking PredicateExists for solutions that exist
+            let mut cfg2 = cfg.clone();
+            cfg2.pex = true;
+            cfg2.pex_heavy = true;
+            cfg2.soup = false;
+            let other = gen::gen_case(&mut wl_rng, &cfg, false);
+            let case2 = gen::gen_case(&mut wl_rng, &cfg2, false);
+            let _ = case;
+            out.push(Scenario::AfterOther {
+                first: other.w,
+                w: case2.w,
+                spec: random_spec(&mut sched_rng, true),
+            });
+            return (out, shape_hash);
+        }
         Batch::C03Transient => {
             // the n-th device request fails once; n drawn inside the number of requests the
             // fault-free sequential run makes
@@ -564,6 +608,7 @@ fn batch_of(name: &str) -> Option<Batch> {
         Batch::C01Model,
         Batch::C01Faulty,
         Batch::C02Determinism,
+        Batch::C02History,
         Batch::C03Overlay,
         Batch::C03Faulty,
         Batch::C03Transient,
@@ -586,7 +631,10 @@ pub fn plan(prop: &str, tier: &str) -> Vec<BatchPlan> {
             mk(Batch::C01Model, 24_000, 1_500_000, false),
             mk(Batch::C01Faulty, 8_000, 500_000, true),
         ],
-        "C02" => vec![mk(Batch::C02Determinism, 8_000, 600_000, false)],
+        "C02" => vec![
+            mk(Batch::C02Determinism, 8_000, 600_000, false),
+            mk(Batch::C02History, 4_000, 300_000, false),
+        ],
         "C03" => vec![
             mk(Batch::C03Overlay, 20_000, 1_200_000, false),
             mk(Batch::C03Faulty, 8_000, 500_000, true),
@@ -606,7 +654,8 @@ fn sample_of(sc: &Scenario) -> Value {
         | Scenario::AltNumbering { w, spec, .. }
         | Scenario::Determinism { w, spec }
         | Scenario::Permutation { w, spec, .. }
-        | Scenario::Transient { w, spec } => (w, spec),
+        | Scenario::Transient { w, spec }
+        | Scenario::AfterOther { w, spec, .. } => (w, spec),
     };
     json!({
         "scenario": match sc {
@@ -615,6 +664,7 @@ fn sample_of(sc: &Scenario) -> Value {
             Scenario::Determinism{..} => "schedule vs sequential",
             Scenario::Permutation{..} => "permuted solution order",
             Scenario::Transient{..} => "transient device error, relaxed oracle",
+            Scenario::AfterOther{..} => "checked right after another set in the same execution",
         },
         "schedule": spec.describe(),
         "entry": format!("{:?}", w.entry),
@@ -670,6 +720,7 @@ pub fn shrink_payload(payload: &Value, class: &str) -> (Value, Value) {
             | Scenario::AltNumbering { w, .. }
             | Scenario::Determinism { w, .. }
             | Scenario::Permutation { w, .. }
+            | Scenario::AfterOther { w, .. }
             | Scenario::Transient { w, .. } => w,
         };
         json!({"solutions": w.sols.len(), "program_bytes": w.programs.iter().map(|p| p.len()).sum::<usize>(), "pre_entries": w.pre.len(), "faults": w.faults.len()})
